@@ -235,9 +235,38 @@ def gen_schema(rng, idx, nsib=None, depth=3, names=None, mod=None, big=None):
 
 def yang_of(schema, rev):
     y = schema.yang()
+    ins = ""
+    ann = getattr(schema, "annots", [])
+    if ann:
+        ins += "  import ietf-yang-metadata { prefix md; }\n"
     if rev:
-        y = y.replace("  prefix p;\n", "  prefix p;\n  revision %s;\n" % rev.decode(), 1)
-    return y
+        ins += "  revision %s;\n" % rev.decode()
+    for nm, ty in ann:
+        ins += "  md:annotation %s { %s }\n" % (nm, ty.yang())
+    return y.replace("  prefix p;\n", "  prefix p;\n" + ins, 1)
+
+
+def annots_tok(schema, rev):
+    ann = getattr(schema, "annots", [])
+    if not ann:
+        return "-"
+    return ";".join("%s/%s/%s/%s" % (hexs(schema.name.encode()), hexs(rev) if rev else "-", hexs(nm.encode()), ty.dsl()) for nm, ty in ann)
+
+
+def decorate(rng, schema, forest):
+    """metadata instances of the module's annotations on random nodes (canonical values)"""
+    ann = schema.annots
+
+    def w(n):
+        if rng.random() < 0.45:
+            for nm, ty in rng.sample(ann, rng.randrange(1, len(ann) + 1)):
+                pool = [v for v in ty.pool() if len(v) < 300]
+                n.meta.append(("%s:%s" % (schema.name, nm), rng.choice(pool)))
+        for k in n.kids:
+            w(k)
+    for n in forest:
+        w(n)
+    return forest
 
 
 # ------------------------------------------------------------------------------------------ trees
@@ -410,6 +439,14 @@ def gen_cases(cx, rng):
         rows = [tg.DN(lst, None, [tg.DN(key, str(i).encode()), tg.DN(val, (b"row-%04d-" % i) + b"x" * (vlen - 9))]) for i in range(n)]
         nums = [tg.DN(ll, str(2**64 - 1 - i).encode()) for i in range(rng.choice([0, 3, cx.n(50, size_max // 13 + 2)]))]
         add(s, [tg.DN(s.top[0], None, rows + nums), tg.DN(s.top[1], b"true")], "explicit", "chunk-population", None, n=n)
+    # 4d. metadata: annotations of the module itself, every type, on any node
+    for _ in range(cx.n(10, 100)):
+        idx += 1
+        rev = rng.choice([None, b"2021-11-30"])
+        s = gen_schema(rng, idx, depth=rng.choice([2, 3]))
+        s.annots = [(nm, rand_ty(rng, key=True)) for nm in rng.sample(["hint", "tag", "a-b", "x1", "origin"], rng.randrange(1, 4))]
+        g = Gen(rng, s, density=0.9, max_inst=3)
+        add(s, flag_tree(rng, g.tree()), rng.choice(WDS), "meta", rev)
     # 5. empty forest, single nodes
     s = gen_schema(rng, 9000)
     add(s, [], "explicit", "empty")
@@ -458,20 +495,32 @@ def run_lybtree(cx):
         keys.append(dsl + (":" + rev.decode() if rev else ""))
         lines.append("%d lybtree print %s %s %s %s" % (i, hexs((s.dsl() + b"#" + (rev or b""))), hexs(yang_of(s, rev).encode()), wd, tg.tok(forest)))
     r1 = cx.run_impl(API, lines, component="lybtree", timeout=cx.n(600, 3000), env=ENV)
+    # metadata cases: decorate the canonical dump libyang returned and print again with the metadata attached
+    ml = []
+    for i, (s, rev, forest, wd, meta) in enumerate(cases):
+        r = r1.get(str(i), ["err", "NoReply"])
+        if meta["kind"] == "meta" and r[0] == "ok" and r[1] != "-":
+            f2 = decorate(rng, s, tg.untok(s, r[1]))
+            ml.append("%d lybtree printm %s %s %s %s" % (i, hexs((s.dsl() + b"#" + (rev or b""))), hexs(yang_of(s, rev).encode()), wd, tg.tok(f2)))
+            cx.dist["lybtree:metadata-instances"] += sum(1 for ln in tg.dump(f2).split(b"\n") if b"=" in ln)
+    if ml:
+        r1b = cx.run_impl(API, ml, component="lybtree", timeout=cx.n(600, 3000), env=ENV)
+        for k, v in r1b.items():
+            r1[k] = v
     mlines, plines = [], []
     for i, (s, rev, forest, wd, meta) in enumerate(cases):
         r = r1.get(str(i), ["err", "NoReply"])
         if r[0] != "ok":
             continue
         dsl, rv = hexs(s.dsl()), (hexs(rev) if rev else "-")
-        mlines.append("%d lyb tprint %s %s %s %s %s" % (i, dsl, rv, hexs(WD_REV), wd, r[1]))
-        mlines.append("p%d lyb tparse %s %s %s %s" % (i, dsl, rv, hexs(WD_REV), r[2]))
+        mlines.append("%d lyb tprint %s %s %s %s %s %s" % (i, dsl, rv, hexs(WD_REV), annots_tok(s, rev), wd, r[1]))
+        mlines.append("p%d lyb tparse %s %s %s %s %s" % (i, dsl, rv, hexs(WD_REV), annots_tok(s, rev), r[2]))
         plines.append("i%d lybtree parse %s %s %s" % (i, hexs((s.dsl() + b"#" + (rev or b""))), hexs(yang_of(s, rev).encode()), r[2]))
     # F27 witness and other print failures: the model must fail too
     for i, (s, rev, forest, wd, meta) in enumerate(cases):
         r = r1.get(str(i), ["err", "NoReply"])
         if r[0] != "ok" and r[:2] != ["err", "Crash"]:
-            mlines.append("%d lyb tprint %s %s %s %s %s" % (i, hexs(s.dsl()), (hexs(rev) if rev else "-"), hexs(WD_REV), wd, tg.tok(forest)))
+            mlines.append("%d lyb tprint %s %s %s %s %s %s" % (i, hexs(s.dsl()), (hexs(rev) if rev else "-"), hexs(WD_REV), annots_tok(s, rev), wd, tg.tok(forest)))
     rm = cx.run_model(mlines, timeout=cx.n(600, 3000))
     for i, (s, rev, forest, wd, meta) in enumerate(cases):
         r = r1.get(str(i), ["err", "NoReply"])
